@@ -174,7 +174,7 @@ def normalise_module(modname: str, tree: ast.AST) -> list[str]:
         if not e:
             continue
         digest, order = shape_of(fn)
-        if digest != e["digest"] or order == e["locals"] or len(order) != len(e["locals"]):
+        if digest != e["digest"] or order == e["locals"] or len(order) != len(e["locals"]) or not order:
             continue
         mapping = {cur: pin for cur, pin in zip(order, e["locals"]) if cur != pin}
         # two-phase rename so that swaps (a→b, b→a) are handled
@@ -183,3 +183,72 @@ def normalise_module(modname: str, tree: ast.AST) -> list[str]:
         _Renamer({tmp[cur]: pin for cur, pin in mapping.items()}).visit(fn)
         done.append(q)
     return done
+
+
+def statement_digests(fn: ast.AST) -> list[str]:
+    """One digest per simple statement and per compound-statement header of fn (nested defs included), with every local of fn
+    anonymised: the multiset is insensitive to renames, formatting and statement order, and changes by one entry per edited statement."""
+    loc = locals_of(fn) if isinstance(fn, (ast.FunctionDef, ast.AsyncFunctionDef)) else set()
+    out: list[str] = []
+
+    def ser(node, parts):
+        if isinstance(node, ast.AST):
+            parts.append(type(node).__name__ + "(")
+            for field, value in ast.iter_fields(node):
+                if field in ("ctx", "type_comment", "kind") or value is None or value == []:
+                    continue
+                if isinstance(node, ast.Name) and field == "id":
+                    parts.append("§" if value in loc else value)
+                elif isinstance(node, ast.ExceptHandler) and field == "name":
+                    parts.append("§")
+                else:
+                    parts.append(field + "=")
+                    ser(value, parts)
+                parts.append(",")
+            parts.append(")")
+        elif isinstance(node, list):
+            for x in node:
+                ser(x, parts)
+                parts.append(";")
+        else:
+            parts.append(repr(node))
+
+    def header(st):
+        hd = []
+        for field, value in ast.iter_fields(st):
+            if field in ("body", "orelse", "finalbody", "handlers", "type_comment"):
+                continue
+            hd.append(field + "=")
+            ser(value, hd)
+        return type(st).__name__ + ":" + "".join(hd)
+
+    def rec(body):
+        for st in body:
+            if isinstance(st, ast.Expr) and isinstance(st.value, ast.Constant) and isinstance(st.value.value, str):
+                continue  # docstrings
+            if isinstance(st, (ast.FunctionDef, ast.AsyncFunctionDef)):
+                out.append(hashlib.sha256(("def:" + st.name).encode()).hexdigest()[:12])
+                rec(st.body)
+            elif isinstance(st, (ast.If, ast.For, ast.AsyncFor, ast.While, ast.With, ast.AsyncWith, ast.Try, ast.ClassDef)):
+                if not isinstance(st, (ast.Try, ast.ClassDef)):
+                    out.append(hashlib.sha256(header(st).encode()).hexdigest()[:12])
+                for fld in ("body", "orelse", "finalbody"):
+                    rec(getattr(st, fld, []) or [])
+                for h in getattr(st, "handlers", []) or []:
+                    out.append(hashlib.sha256(("except:" + (ast.dump(h.type) if h.type is not None else "")).encode()).hexdigest()[:12])
+                    rec(h.body)
+            else:
+                parts: list[str] = []
+                ser(st, parts)
+                out.append(hashlib.sha256("".join(parts).encode()).hexdigest()[:12])
+    rec(fn.body)
+    return out
+
+
+def edit_distance(pinned: list[str], current: list[str]) -> int:
+    """number of statements that differ between two statement multisets (a modified statement counts once)"""
+    from collections import Counter
+    a, b = Counter(pinned), Counter(current)
+    removed = sum((a - b).values())
+    added = sum((b - a).values())
+    return max(removed, added)
